@@ -228,6 +228,35 @@ pub fn plan(property: &str, tier: Tier) -> Option<Plan>
                 c.max_runs = 400;
                 items.push(item(c, "rich2", &format!("N={n}")));
             }
+            // ref-counted despawn reactors: a despawn reaction detected while its reactor is executing is postponed, and
+            // the handle that keeps the reactor alive travels with the postponed command
+            let ns: &[u32] = if q { &[4] } else { &[4, 5, 6] };
+            for &n in ns
+            {
+                let mut c = Config::base(&format!("C02/despawn-rc/N{n}"));
+                c.actors = vec![Variant::Plain];
+                c.n_ents = 2;
+                c.setup = vec![
+                    Op::RegisterNew(Variant::Plain, Bundle::two(Trig::Despawn(0), Trig::Despawn(1)), Mode::Cleanup),
+                    Op::RegisterNew(Variant::Plain, Bundle::one(Trig::Despawn(1)), Mode::Cleanup),
+                ];
+                let alpha: AlphabetFn = Arc::new(|i: &DynInfo| {
+                    let mut v = vec![Op::Despawn(0), Op::Despawn(1)];
+                    for a in i.ready_actors() { v.push(Op::Run(a)); }
+                    v.push(Op::SysEvent(0));
+                    v
+                });
+                c.top = alpha.clone();
+                c.script = alpha;
+                c.max_top = 2;
+                c.budget = n;
+                c.max_per_run = 3;
+                c.max_runs = 300;
+                c.sym_actors = vec![];
+                c.sym_ents = vec![];
+                c.final_gc = true;
+                items.push(item(c, "despawn-rc", &format!("N={n}")));
+            }
             reports = vec!["C02"];
             rule = "lazily enumerated programs over {Run, SysEvent, DespawnSys}x3 actors + Broadcast with preset \
                 listeners; non-trivial = at least one system run; distinct = distinct canonical trace".into();
@@ -629,6 +658,38 @@ pub fn plan(property: &str, tier: Tier) -> Option<Plan>
                     c.max_per_run = 2;
                     c.max_runs = 400;
                     c.sym_actors = vec![vec![0, 1, 2]];
+                    items.push(item(c, "faults", &format!("N={n}")));
+                }
+            }
+            if !is3
+            {
+                // events whose target dies between queuing and applying (aborted deliveries), followed by runs that
+                // react to nothing: the aborted event must not be readable by anybody
+                let ns: &[u32] = if q { &[3] } else { &[3, 4] };
+                for &n in ns
+                {
+                    let mut c = Config::base(&format!("C04/faults/N{n}"));
+                    c.actors = vec![Variant::Plain, Variant::Plain, Variant::Plain];
+                    c.n_ents = 1;
+                    c.setup = vec![
+                        Op::Register(0, Bundle::two(Trig::Broadcast(Ev::A), Trig::EntityEvent(Ev::A, 0)), Mode::Persistent),
+                        Op::Register(1, Bundle::two(Trig::Broadcast(Ev::A), Trig::EntityEvent(Ev::A, 0)), Mode::Persistent),
+                        Op::Register(1, Bundle::one(Trig::ResMut), Mode::Persistent),
+                    ];
+                    let alpha: AlphabetFn = Arc::new(|i: &DynInfo| {
+                        let mut v = vec![Op::Broadcast(Ev::A), Op::EntityEvent(Ev::A, 0), Op::Broadcast(Ev::B), Op::ResMutate(How::GetMut)];
+                        for a in i.ready_actors() { if a != 2 { v.push(Op::SysEvent(a)); v.push(Op::DespawnSys(a)); } }
+                        // the probe (actor 2, no registrations) reacts to nothing
+                        v.push(Op::Run(2));
+                        v
+                    });
+                    c.top = alpha.clone();
+                    c.script = alpha;
+                    c.max_top = 3;
+                    c.budget = n;
+                    c.max_per_run = 3;
+                    c.max_runs = 400;
+                    c.sym_actors = vec![];
                     items.push(item(c, "faults", &format!("N={n}")));
                 }
             }
@@ -1058,7 +1119,11 @@ pub fn plan(property: &str, tier: Tier) -> Option<Plan>
                 // new reactors (and actor 0) fire triggers from inside their runs (self-triggering, nested, several
                 // triggers in one tree)
                 c.script = Arc::new(move |_i: &DynInfo| {
-                    vec![Op::Broadcast(Ev::A), Op::EntityEvent(Ev::A, 0), Op::Despawn(0), Op::ResMutate(How::GetMut)]
+                    let mut v = vec![Op::Broadcast(Ev::A), Op::EntityEvent(Ev::A, 0), Op::Despawn(0), Op::ResMutate(How::GetMut)];
+                    // a (despawn) reactor that despawns the other watched entity and then runs another system: the
+                    // second despawn is detected while the reactor is still executing
+                    if is7 { v.push(Op::Despawn(1)); v.push(Op::Run(0)); }
+                    v
                 });
                 c.max_top = d;
                 c.budget = d + 1;
@@ -1215,12 +1280,21 @@ pub fn plan(property: &str, tier: Tier) -> Option<Plan>
                     Op::Register(0, Bundle::two(Trig::EntityRemoval(Comp::A, 0), Trig::EntityRemoval(Comp::A, 1)), Mode::Persistent),
                     Op::Register(1, Bundle::one(Trig::EntityRemoval(Comp::A, 1)), Mode::Persistent),
                 ];
-                let alpha: AlphabetFn = Arc::new(move |_i: &DynInfo| {
-                    vec![
+                let alpha: AlphabetFn = Arc::new(move |i: &DynInfo| {
+                    let mut v = vec![
                         Op::Insert(Comp::A, 0, 1), Op::Insert(Comp::A, 1, 1),
                         Op::RemoveComp(Comp::A, 0), Op::RemoveComp(Comp::A, 1),
                         Op::Despawn(1), Op::Poll, Op::Run(0),
-                    ]
+                    ];
+                    // type-wide reactors of the same component that come and go (they share the component's removal
+                    // tracker with the entity-scoped removal reactors)
+                    if i.n_actors < 4
+                    {
+                        v.push(Op::RegisterNew(Variant::Plain, Bundle::one(Trig::Removal(Comp::A)), Mode::Revokable));
+                        v.push(Op::RegisterNew(Variant::Plain, Bundle::one(Trig::Mutation(Comp::A)), Mode::Revokable));
+                    }
+                    for k in i.ready_tokens() { v.push(Op::Revoke(k)); }
+                    v
                 });
                 c.top = alpha.clone();
                 c.script = alpha;
